@@ -22,3 +22,13 @@ for f in $(git diff --name-only --diff-filter=U); do
 done
 for m in $MAP; do old=${m%%:*}; new=${m##*:}; grep -rl "$old" known notes tools/props 2>/dev/null | xargs -r sed -i "s/$old/$new/g"; done
 echo "remaining conflicts:"; git diff --name-only --diff-filter=U
+python3 - <<'PY'
+for p in ['/verif/harness/hfull/Cargo.toml','/verif/harness/hcore/Cargo.toml']:
+    lines=open(p).read().split('\n'); seen=set(); out=[]
+    for l in lines:
+        k=l.split('=')[0].strip() if '=' in l and not l.startswith('[') else None
+        if k and k in seen: continue
+        if k: seen.add(k)
+        out.append(l)
+    open(p,'w').write('\n'.join(out))
+PY
